@@ -35,7 +35,8 @@ RULE = ("history = seeded constructor arguments (frame count 2-6 or INDEFINITE s
 PROBES = ["seek_at_loop_boundary", "seek_after_exhaustion", "relative_padding_set_mid_iteration",
           "indefinite_double_seek_before_render", "out_of_range_seek_rejected",
           "op_on_closed_iterator", "terminal_resized_before_relative_padding",
-          "loops_completed_without_seek", "from_render_data_constructor"]
+          "loops_completed_without_seek", "from_render_data_constructor",
+          "render_data_used_by_an_earlier_iterator"]
 COMPONENTS = {
     "real": ["term_image.render.RenderIterator", "Renderable._init_render_/_get_render_data_",
              "RenderArgs/RenderData", "padding.*"],
@@ -204,6 +205,19 @@ def run(ch, ctx, fault=None):
             if via_data:
                 ctx.probe("from_render_data_constructor")
                 rd = r._get_render_data_(iteration=True)
+                if not indefinite and ch.bool("data_used_before", 0.4):
+                    # the caller's data has served an earlier iterator that was closed part
+                    # of the way through (a replayed animation): the new one starts afresh
+                    ctx.probe("render_data_used_by_an_earlier_iterator")
+                    early = RenderIterator._from_render_data_(
+                        r, rd, None, padding_mod.ExactPadding(), 1, False, finalize=False)
+                    for _ in range(ch.int("early_frames", 1, n)):
+                        next(early)
+                    if ch.bool("early_seek", 0.3):
+                        early.seek(ch.int("early_pos", 0, n - 1))
+                        next(early)
+                    early.close()
+                    del early
                 it = RenderIterator._from_render_data_(r, rd, args0, pm.build(padding_mod), loops,
                                                        cache)
             else:
